@@ -716,6 +716,10 @@ def cases(tier):
           dict(name="threads[app+app2,2 sends]", fn=h_schedules, args=(("app", "app2"), 2), timeout_s=900, weight=10),
           dict(name="threads[app+keepalive+app2,1 send]", fn=h_schedules, args=(("app", "keepalive", "app2"), 1), timeout_s=900, weight=10)]
     if tier != "quick":
+        cs.append(dict(name="races[coder+coder2,2 sends]", fn=h_races, args=(("coder", "coder2"), 2), timeout_s=1800, weight=40, keep_samples=128))
+        cs.append(dict(name="races[coder+coder2+app,1 send]", fn=h_races, args=(("coder", "coder2", "app"), 1), timeout_s=1800, weight=40, keep_samples=128))
+        cs.append(dict(name="races[app+keepalive+app2,1 send]", fn=h_races, args=(("app", "keepalive", "app2"), 1), timeout_s=1800, weight=40, keep_samples=128))
+        cs.append(dict(name="threads[coder+coder2+app,2 sends]", fn=h_schedules, args=(("coder", "coder2", "app"), 2), timeout_s=3400, weight=100))
         cs.append(dict(name="threads[app+keepalive+app2,2 sends]", fn=h_schedules, args=(("app", "keepalive", "app2"), 2), timeout_s=3400, weight=100))
         cs.append(dict(name="threads[app+keepalive,3 sends]", fn=h_schedules, args=(("app", "keepalive"), 3), timeout_s=3400, weight=100))
         cs.append(dict(name="threads[app+keepalive+app2+app,1 send]", fn=h_schedules, args=(("app", "keepalive", "app2", "app"), 1), timeout_s=3400, weight=100))
